@@ -179,6 +179,7 @@ type obs struct {
 	dels     [][]string          // PROC/CLR ops: names removed
 	before   [][]string          // PROC/CLR ops: regular files before
 	panics   []string
+	hung     bool
 }
 
 type fakeConf struct {
@@ -408,13 +409,28 @@ func runImpl(c *hcase) *obs {
 	defer l.CloseForVerif()
 	ob.newCur = curName(l)
 
+ops:
 	for i := range c.Ops {
 		o := &c.Ops[i]
 		c.setTime(i, o.T)
 		switch o.Kind {
 		case "log":
 			before := curSize(l)
-			g := vh.Guard(func() { callLog(l, o.Meth, string(vh.UnHex(o.ID)), string(vh.UnHex(o.Msg))) })
+			var g vh.Outcome
+			if i%64 == 0 || len(c.Ops) > 300 {
+				// watchdog (a call that never returns holds the logger's locks): always for the long
+				// many-id histories, sampled elsewhere
+				g = vh.GuardTimeout(10*time.Second, func() { callLog(l, o.Meth, string(vh.UnHex(o.ID)), string(vh.UnHex(o.Msg))) })
+			} else {
+				g = vh.Guard(func() { callLog(l, o.Meth, string(vh.UnHex(o.ID)), string(vh.UnHex(o.Msg))) })
+			}
+			if g.Timeout {
+				ob.outs[i] = "timeout"
+				ob.hung = true
+				ob.panics = append(ob.panics, fmt.Sprintf("op %d %s: did not return within 10 s", i, o.Meth))
+				ob.curAt[i] = curName(l)
+				break ops
+			}
 			after := curSize(l)
 			if !g.OK() {
 				ob.outs[i] = "panic"
